@@ -57,7 +57,14 @@ CheckComm(r) ==
       /\ Ck("C17", r, "C17.octets", r.accepted => (WfUpdate(r.bin, TRUE) /\ SameExt(AttrValueOf(r.bin, r.sub), r.ref)), r.text)
       /\ Ck("C17", r, "C17.sametext", r.accepted => r.text2_same, r.diff)
       /\ Ck("C17", r, "C17.sent", r.accepted => (r.sent_ok /\ r.wire = r.bin /\ r.exc = 0), r.text)
+\* UPDATEs constructed with add-path identifiers (C08 / C09)
+CheckAP(r) ==
+   r.kind = "updap" =>
+      /\ Ck("C08", r, "C08.silent", ~r.none, <<>>)
+      /\ Ck("C08", r, "C08.wellformed", HasImpl(r) => WfUpdateAP(r.impl, TRUE), <<>>)
+      /\ Ck("C08", r, "C08.meaning", (HasImpl(r) /\ WfUpdateAP(r.impl, TRUE)) => NormUpdateAP(r.impl) = NormUpdateAP(r.ref), <<>>)
+      /\ Ck("C09", r, "C09.decode", r.dec_ok, r.ddiff)
 Init == l = 1
-Next == l <= Len(Tr) /\ (IF Tr[l].kind = "comm" THEN CheckComm(Tr[l]) ELSE (CheckLine(Tr[l]) /\ CheckSess(Tr[l]))) /\ l' = l + 1
+Next == l <= Len(Tr) /\ (IF Tr[l].kind = "comm" THEN CheckComm(Tr[l]) ELSE IF Tr[l].kind = "updap" THEN CheckAP(Tr[l]) ELSE (CheckLine(Tr[l]) /\ CheckSess(Tr[l]))) /\ l' = l + 1
 AllConsumed == TLCGet("stats").diameter - 1 = Len(Tr)
 =============================================================================
